@@ -498,6 +498,9 @@ def run(ck):
     check_resume(ck, prog)
     check_seqlabel(ck, prog)
     check_outguard(ck, prog)
+    from . import C15
+    ck.rule("C06-BCJEND", "the BCJ wrapper consults end_was_reached after draining its buffer and before asking the next coder for more")
+    C15.check_end_after_drain(ck, prog, rule="C06-BCJEND")
     check_crc(ck, prog)
     check_det(ck, prog)
     check_slice(ck, prog)
